@@ -134,6 +134,11 @@ def bank_matrix(tier, rate):
     out.append(("fbank", lambda: filters.Fbank(num_filts=3, sampling_rate=rate)))
     out.append(("fbank_analytic", lambda: filters.Fbank(num_filts=3, sampling_rate=rate, analytic=True)))
     out.append(("gabor_erb_wide", lambda: filters.GaborFilterBank("mel", num_filts=2, sampling_rate=rate, low_hz=0.0, erb=True)))
+    # complex banks that call themselves analytic (no filter reaches below 0 Hz) and whose top filters run past Nyquist:
+    # the sum is still over the FULL spectrum
+    for sc in ("mel", "bark"):
+        out.append(("gabor_analytic_past_nyquist", lambda sc=sc: filters.GaborFilterBank(
+            sc, num_filts=3 if rate <= 1000 else 10, sampling_rate=rate, low_hz=0.2 * rate, high_hz=rate / 2)))
     return out
 
 
